@@ -214,7 +214,7 @@ def layout(ps, shape):
     return leaf_var, node_slash
 
 
-def obligations(tier):
+def base_obligations(tier):
     q = tier == 'quick'
     for px, py in pattern_pairs():
         psx, psy = pshape(px), pshape(py)
@@ -263,3 +263,57 @@ def obligations(tier):
                         for full in fulls:
                             yield Obligation('C06.match[%s ~ %s | x:%s y:%s | slash@%s | %s lf=%d full=%s]' % (px, py, lx, ly, var, feat, lf, full), 'h_match',
                                              dict(px=px, py=py, sx=sx, sy=sy, feat=feat, lf=lf, full=full, fmodes=fm, smodes=sm), cost=n * n)
+
+
+def deep_obligations(tier):
+    """shared variables standing for sub-categories of 3-4 leaves (an argument that is itself a functor, followed by more leaves):
+    every leaf of the shared binding carries a symbolic feature, the other leaves none"""
+    q = tier == 'quick'
+    import itertools
+
+    def inst(ps, var, shape):
+        if isinstance(ps, str):
+            return shape if ps == var else 'a'
+        return (inst(ps[0], var, shape), inst(ps[2], var, shape))
+    deep = [(('a', ('a', 'a')), 'a'), ('a', (('a', 'a'), 'a')), (('a', 'a'), ('a', 'a')), ((('a', 'a'), 'a'), 'a'), ('a', ('a', ('a', 'a')))]
+    deep3 = [(('a', 'a'), 'a'), ('a', ('a', 'a'))]
+    seen = set()
+    for px, py in pattern_pairs():
+        psx, psy = pshape(px), pshape(py)
+        if len(set(pvars(psx))) != len(pvars(psx)) or len(set(pvars(psy))) != len(pvars(psy)):
+            continue
+        shared = sorted(set(pvars(psx)) & set(pvars(psy)))
+        for v in shared:
+            for shape in (deep3 + deep[:2]) if q else (deep3 + deep):
+                sx, sy = inst(psx, v, shape), inst(psy, v, shape)
+                n = nleaves(sx) + nleaves(sy)
+                if n > (12 if q else 14):
+                    continue
+                lvx, nsx = layout(psx, sx)
+                lvy, nsy = layout(psy, sy)
+                fm = (['u' if w == v else 'n' for w in lvx], ['u' if w == v else 'n' for w in lvy])
+                sm = (list(nsx), list(nsy))
+                for feat in (('mixed',) if q else ('mixed', 'ternary')):
+                    if feat == 'ternary':
+                        nx = nleaves(sx)
+                        pairs = [[i, nx + j] for i, a in enumerate(lvx) for j, b in enumerate(lvy) if a == v and b == v]
+                        # corresponding leaves of the two occurrences
+                        ix = [i for i, a in enumerate(lvx) if a == v]
+                        iy = [j for j, b in enumerate(lvy) if b == v]
+                        fulls = [[i, nx + j] for i, j in zip(ix, iy)]
+                        if q:
+                            fulls = fulls[-2:]
+                    else:
+                        fulls = [None]
+                    for full in fulls:
+                        key = (px, py, v, str(shape), feat, str(full))
+                        if key in seen:
+                            continue
+                        seen.add(key)
+                        yield Obligation('C06.deep[%s ~ %s | %s:=%s | %s full=%s]' % (px, py, v, shape_name(shape), feat, full), 'h_match',
+                                         dict(px=px, py=py, sx=sx, sy=sy, feat=feat, lf=1, full=full, fmodes=fm, smodes=sm), cost=n * n)
+
+
+def obligations(tier):
+    yield from base_obligations(tier)
+    yield from deep_obligations(tier)
